@@ -1561,9 +1561,20 @@ open_common(kdump_ctx_t *ctx)
 		const char *name = strtab_entry(edp, sect->name_index);
 		if (!name)
 			continue;
-		if (!strcmp(name, ".xen_pages"))
+		if (!strcmp(name, ".xen_pages")) {
 			edp->xen_pages_offset = sect->file_offset;
-		else if (!strcmp(name, ".xen_p2m")) {
+			continue;
+		}
+		if (!strcmp(name, ".xen_p2m") ||
+		    !strcmp(name, ".xen_pfn") ||
+		    !strcmp(name, ".note.Xen") ||
+		    !strcmp(name, ".xen_prstatus")) {
+			ret = check_file_extent(ctx, 0, sect->file_offset,
+						sect->size, name);
+			if (ret != KDUMP_OK)
+				return ret;
+		}
+		if (!strcmp(name, ".xen_p2m")) {
 			set_xen_xlat(ctx, KDUMP_XEN_NONAUTO);
 			ret = make_xen_pfn_map_nonauto(ctx, sect);
 			if (ret != KDUMP_OK)
